@@ -141,6 +141,70 @@ def run_case(fam, b, case, values, style, wd):
         {"file": toml_file(file_assign, style) if file_assign else None, "cli": cli, "attr": attrs}
 
 
+def obs_demo_pair(r):
+    """(relative_js_path, module_name) as far as the output shows them: the import target is <path><module or index.mjs>"""
+    t = r["tree"].get("index.mjs", b"").decode(errors="replace")
+    m = re.search(r'export \* as lib from "([^"]*)"', t)
+    if not m:
+        return None
+    path, _, tail = m.group(1).rpartition("/")
+    return {"k1": path + ("/" if path else ""), "k2": tail}
+
+
+def obs_kotlin_pair(r):
+    return {"k1": obs_kotlin_domain(r), "k2": obs_kotlin_lib(r)}
+
+
+# pairs of different keys of one backend: (backend, k1, k2, value of k1 per source, value of k2 per source, what the output shows
+# for an unset key given the other key's effective value, observation, base command line)
+PAIRS = [
+    ("demo_gen", "demo_gen.relative_js_path", "demo_gen.module_name",
+     {"file": "../vfile/", "cli": "../vcli/", "attr": "../vattr/"}, {"file": "mfile", "cli": "mcli", "attr": "mattr"},
+     lambda eff: {"k1": ("" if eff["k2"] else "./js/"), "k2": "index.mjs"}, obs_demo_pair, []),
+    ("kotlin", "kotlin.domain", "kotlin.lib_name",
+     {"file": "d.file", "cli": "d.cli", "attr": "d.attr"}, {"file": "lfile", "cli": "lcli", "attr": "lattr"},
+     lambda eff: {"k1": None, "k2": "baselib"}, obs_kotlin_pair, ["lib_name=baselib"]),
+]
+
+
+def keys_leg(rep, tier, wd):
+    """ConfigKeys.tla: assigning one key never changes another.  All 64 ways three sources can assign two different keys of one
+    backend, both orders on the command line when it assigns both."""
+    r = lib.tlc("config", "ConfigKeys", "keys.cfg", workers=2)
+    lib.tlc_expect_ok(r, "ConfigKeys")
+    rep.add_tlc("ConfigKeys", r)
+    rn = lib.tlc("config", "ConfigKeys", "keys_neg.cfg", workers=2, coverage=False)
+    lib.tlc_expect_violation(rn, "a setter that also resets another key", "KeysIndependent")
+    rep.extra["negative_models_refuted"] += 1
+    n = 0
+    for b, k1, k2, v1, v2, unset, obs, base in PAIRS:
+        names, vals = {"k1": k1, "k2": k2}, {"k1": v1, "k2": v2}
+        for c in r.printed["CASE"]:
+            sets = {s: sorted(ks) for s, ks in c["sets"].items()}
+            orders = [("k1", "k2"), ("k2", "k1")] if len(sets["cli"]) == 2 else [tuple(sets["cli"])]
+            for order in orders:
+                file_assign = [(b, names[k].split(".", 1)[1], '"%s"' % vals[k]["file"]) for k in sets["file"]]
+                cli = list(base) + ["%s=%s" % (names[k], vals[k]["cli"]) for k in order]
+                attrs = ["#[diplomat::config(%s = \"%s\")]\npub struct Cfg%s;\n" % (names[k], vals[k]["attr"], k.upper()) for k in sets["attr"]]
+                eff = {k: (None if c["eff"][k] == "<unset>" else vals[k][c["eff"][k]]) for k in ("k1", "k2")}
+                dflt = unset(eff)
+                if eff["k1"] is None and dflt["k1"] is None:
+                    continue       # a required key without a default (kotlin.domain): leaving it unset is a usage error
+                res = tool(b, wd, SRC_TMPL % ("".join(attrs), ""), toml_file(file_assign, "snake") if file_assign else None, cli)
+                n += 1
+                want = {k: (eff[k] if eff[k] is not None else dflt[k]) for k in ("k1", "k2")}
+                got = obs(res)
+                if got != want:
+                    rep.violation({"family": "two keys: %s + %s" % (k1, k2), "backend": b, "sets": sets,
+                                   "wrong": sorted(k for k in ("k1", "k2") if not got or got.get(k) != want[k])},
+                                  {"expected": want, "observed": got, "cli": cli, "file": toml_file(file_assign, "snake") if file_assign else None,
+                                   "attrs": attrs, "stderr": res["stderr"][-500:]})
+                if sum(1 for s in sets.values() if s) >= 2:
+                    rep.nontriv("keys|%s|%s|%s" % (b, json.dumps(sets, sort_keys=True), order))
+    rep.extra["two_key_runs"] = n
+    return n
+
+
 def run(rep, tier):
     wd = rep.wd
     rep.rule = ("assignments = all 64 ways the three sources can set a key (absent / shared / target-scoped / other-language-scoped), "
@@ -223,6 +287,7 @@ def run(rep, tier):
                                               {"expected": want, "observed": got, "how": how, "stderr": res["stderr"][-600:]})
                 if len(present) >= 2:
                     rep.nontriv("%s|%s|%s" % (fam.name, b, json.dumps(c["srcs"], sort_keys=True)))
+    nruns += keys_leg(rep, tier, wd)
     rep.evaluations += nruns
     rep.traces += nruns
     rep.sample({"case": cases[20], "family": "lib_name@kotlin"})
